@@ -167,7 +167,7 @@ def run_real_chain(script, res, trace):
                     from skepticoin.signing import CoinbaseData as _CD
                     cb = _T([_I(_R(b'\x00' * 32, 0), _CD(h, b'rival'))], [_O(10 * 100_000_000, W.key(h % 12).pk)])
                     rival = W.seal(view, h, par.hash(), par.timestamp + 1, W.TRIVIAL_TARGET, [cb], fake_scrypt=b'rival%d' % h)
-                    conns[-1].send(M.DataMessage(M.DATA_BLOCK, rival), in_response_to=9)
+                    conns[-1].offer_block(rival)
                     k.run(k.now + 2500)
                     if rival.hash() in node.lp.chain_manager.coinstate.block_by_hash:
                         competitors.add(rival.hash())
@@ -457,7 +457,7 @@ def run_checkpoints(script, res, trace):
                     live = [x for x in bot.conns if not x.closed and x.hello_in]
                     if not live:
                         break
-                live[-1].send(M.DataMessage(M.DATA_BLOCK, b_), in_response_to=9)
+                live[-1].offer_block(b_)
                 k.run(k.now + 1500)
             k.run(k.now + 2000)
             res.bump('checkpoint_bulk_side_branch_runs')
